@@ -75,6 +75,10 @@ func digestsAgree(rc *runCfg, pl *plan, m *merged) error {
 		}
 		delete(m.extra, k)
 	}
+	if refWho != "" {
+		delete(m.extra, refWho)
+		m.extra["package-state digest per variable (first 8 bytes; identical in all processes unless a violation says otherwise)"] = ref
+	}
 	if n >= 2 {
 		m.extra["processes whose final package-state digests were compared"] = n
 		m.extra["variables in the digest"] = len(ref)
